@@ -159,7 +159,7 @@ fn real_chains(g: &Graph) -> Vec<String> {
 
 pub fn check_library(lib: &[(String, String)]) -> Option<String> {
     let st: HashMap<String, String> = lib.iter().cloned().collect();
-    let db = dump::catch(|| Database::new(st.clone(), true, MarkdownOptions::default())).ok()?;
+    let db = dump::catch(|| crate::act::database_with(&st, "", true)).ok()?;
     let g = db.graph();
     let formatted: BTreeMap<String, String> = g.keys().iter().map(|k| (k.to_string(), g.to_markdown(k))).collect();
     let want = expected_chains(&formatted);
@@ -256,8 +256,8 @@ pub fn run(ctx: &Ctx, model: &mut Model, rep: &mut Report) {
         let v: serde_json::Value = serde_json::from_str(&std::fs::read_to_string(path).unwrap()).unwrap();
         let lib: Vec<(String, String)> = v["library"].as_array().unwrap().iter().map(|p| (p[0].as_str().unwrap().to_string(), p[1].as_str().unwrap().to_string())).collect();
         rep.evaluations += 1;
-        if let Some(what) = check_library(&lib) {
-            rep.fail(json!({"kind": "paths", "library": lib, "what": what}));
+        if let Some(what) = crate::act::with_via(crate::act::via_from(&v["via"]), || check_library(&lib)) {
+            rep.fail(json!({"kind": "paths", "library": lib, "via": v["via"], "what": what}));
         }
         return;
     }
@@ -321,12 +321,14 @@ pub fn run(ctx: &Ctx, model: &mut Model, rep: &mut Report) {
                 }
             }
         }
-        if let Some(what) = check_library(&lib) {
+        let via = crate::act::via_for(i as u64);
+        rep.count(&format!("loaded_via_{:?}", via));
+        if let Some(what) = crate::act::with_via(via, || check_library(&lib)) {
             if d17_open && has_reference_cycle_without_root(&lib) && what.contains("is the end of no listed path") {
                 rep.count("attributed_to_D17");
                 continue;
             }
-            rep.fail(json!({"kind": "paths", "library": lib, "what": what}));
+            rep.fail(json!({"kind": "paths", "library": lib, "via": format!("{:?}", via), "what": what}));
         }
     }
 }
